@@ -408,3 +408,63 @@ func Enumerate[C any](t *testing.T, prop, rule string, each func(yield func(C) b
 	})
 	st.Requested = st.Evaluations
 }
+
+// Fuzz registers a native Go fuzz target (coverage-guided, thorough tier only):
+// the fuzzer's bytes are decoded by rapid into the same generator that the
+// random search uses, the case is judged by the same interpreter, and a failing
+// case is written as a replay file (the last one written is the fuzzer's
+// minimised input). Statistics are flushed periodically because fuzz workers
+// are separate processes that are killed at the end of the campaign.
+func Fuzz[C any](f *testing.F, prop, rule string, seeds [][]byte, gen func(*rapid.T) C, interp func(C) Verdict) {
+	f.Helper()
+	start := time.Now()
+	st := newStats(prop, rule)
+	st.Shard = os.Getpid()
+	st.Note = "native go fuzzing worker; evaluations counted per worker process"
+	f.Add([]byte{})
+	for _, s := range seeds {
+		f.Add(s)
+	}
+	var n int
+	target := rapid.MakeFuzz(func(rt *rapid.T) {
+		c := gen(rt)
+		raw, err := json.Marshal(c)
+		if err != nil {
+			panic("kit: case not serialisable: " + err.Error())
+		}
+		v := interp(c)
+		mu.Lock()
+		st.record(raw, v)
+		n++
+		flush := n%2000 == 0 || v.Fail != ""
+		mu.Unlock()
+		if v.Fail != "" {
+			if v.Known != "" && KnownOpen(prop, v.Known) {
+				st.KnownHits[v.Known]++
+				if _, ok := st.KnownExample[v.Known]; !ok {
+					st.KnownExample[v.Known] = string(raw)
+				}
+				return
+			}
+			p := writeReplay(prop, rule, raw, v)
+			st.Failures = []failure{{Message: v.Fail, Replay: p}}
+			st.Requested = st.Evaluations
+			st.flush(start)
+			rt.Fatalf("%s", v.Fail)
+		}
+		if flush {
+			mu.Lock()
+			st.Requested = st.Evaluations
+			st.flush(start)
+			mu.Unlock()
+		}
+	})
+	// Zero padding makes every input decode to a complete case (draws past the end of
+	// the fuzzer's bytes take their minimal value) instead of being skipped as
+	// "invalid data", so coverage guidance works on real behaviour from the first input.
+	f.Fuzz(func(t *testing.T, in []byte) {
+		buf := make([]byte, len(in)+8192)
+		copy(buf, in)
+		target(t, buf)
+	})
+}
